@@ -15,8 +15,14 @@
 (*         of the options that decide (a u p s d hb w n i o), each placed  *)
 (*         uniformly (all on the command line / all in the config file /   *)
 (*         flags here and values there)                                    *)
+(*  spell  every option in every legal spelling (long, long=, short, glued *)
+(*         short, abbreviation, abbreviation=), alone and over an equal /  *)
+(*         conflicting config-file value of the same option                *)
+(*  feat   every subset of the features a p w n (u) x one further option   *)
+(*         (r pp pa pv hb s d) with each of its values: is it forwarded    *)
+(*         whatever else is switched on (e.g. -r with and without -w)      *)
 (*  walk   (simulation mode, Family = "walk") random walks changing one    *)
-(*         option placement per step, starting from the base vectors       *)
+(*         option placement + spelling per step, from the base vectors     *)
 (***************************************************************************)
 EXTENDS CliM, Json, IOUtils
 
@@ -24,7 +30,10 @@ CONSTANTS Tier, Family, Depth
 VARIABLES vec, steps
 gvars == <<vec, steps>>
 
-Mk(pl) == [cli |-> [o \in Opts |-> pl[o][1]], cfg |-> [o \in Opts |-> pl[o][2]]]
+\* a placement is <<cli, cfg>> (spelling left to the harness: "any") or <<cli, cfg, spelling>>
+Mk(pl) == [cli |-> [o \in Opts |-> pl[o][1]], cfg |-> [o \in Opts |-> pl[o][2]],
+           sp  |-> [o \in Opts |-> IF Len(pl[o]) = 3 THEN pl[o][3]
+                                   ELSE IF pl[o][1] = None THEN None ELSE "any"]]
 States(o) == {<<c, f>> : c \in CliVals(o), f \in CfgVals(o)}
 \* representative placements: absent, cli, cfg, both with the command line differing
 Reduced(o) ==
@@ -36,7 +45,7 @@ Reduced(o) ==
     [] o = "d"  -> {<<None, None>>, <<"map1", None>>, <<None, "map1">>, <<"map2", "map1">>}
     [] o = "w"  -> {<<None, None>>, <<"w1", None>>, <<None, "w1">>, <<"w2", "w1">>}
     [] o = "n"  -> {<<None, None>>, <<"n1", None>>, <<None, "n1">>, <<"n2", "n1">>}
-    [] o = "r"  -> {<<None, None>>, <<"r1", None>>, <<None, "r1">>, <<"r2", "r1">>}
+    [] o = "r"  -> {<<None, None>>, <<"r1", None>>, <<None, "r1">>, <<"r2", "r1">>, <<"r3", None>>, <<None, "r3">>}
     [] o = "pp" -> {<<None, None>>, <<"pp1", None>>, <<None, "ppdef">>, <<"pp2", "pp1">>}
     [] o = "pa" -> {<<None, None>>, <<"pa1", None>>, <<None, "parfc">>, <<"pamix", "pa1">>, <<"pa1", "pamix">>}
     [] o = "hb" -> {<<None, None>>, <<"h0", None>>, <<None, "h0">>, <<"h0", "h17">>, <<None, "h17">>,
@@ -84,10 +93,38 @@ TableSet ==
              w : {None, "w1"}, n : {None, "n1"}, i : TIn, o : TOut],
       u \in Uniform }
 
+\* spell: every option in every spelling, alone and over a config-file value of the
+\* same option (equal and conflicting), around the all-features base(s)
+SpellVals(o) == IF o \in Flags THEN {"on"}
+                ELSE IF Tier = "quick" THEN {CHOOSE x \in Dom[o] : x \notin {"EMPTY", "m1", "h33"}} \cup
+                                            (IF o \in {"s", "i", "o"} THEN {"EMPTY"} ELSE {})
+                ELSE Dom[o]
+SpellBases == IF Tier = "quick" THEN {BaseCli} ELSE {BaseCli, BaseCfg, BaseUndo}
+SpellSet == UNION {UNION {
+              {[x \in Opts |-> IF x = o THEN <<t[1], t[2], t[3]>> ELSE b[x]] :
+                 t \in {q \in SpellVals(o) \X CfgVals(o) \X Spells(o) : ~(q[3] = "glued" /\ q[1] = "EMPTY")}}
+              : o \in Opts} : b \in SpellBases}
+\* feat: every subset of the features x one further option with each of its values:
+\* is the option forwarded whatever else is switched on?
+FeatSets == {t \in [a : TFlag, p : TFlag, w : {None, "w1"}, n : {None, "n1"}, u : TFlag] :
+               /\ ~(t.a = "on" /\ t.u = "on")
+               /\ (t.a = "on" \/ t.p = "on" \/ t.u = "on" \/ t.w # None \/ t.n # None)}
+FeatExtra == {<<"r", x>> : x \in Dom["r"]} \cup {<<"pp", x>> : x \in Dom["pp"]} \cup {<<"pa", x>> : x \in Dom["pa"]}
+             \cup {<<"pv", "on">>} \cup {<<"hb", x>> : x \in {"h0", "h17", "h32"}} \cup {<<"s", "s2">>, <<"s", "EMPTY">>}
+             \cup {<<"d", "map1">>}
+FeatSet == { [x \in Opts |->
+               IF x = e[1] THEN PlaceEff(x, e[2], u)
+               ELSE IF x \in DOMAIN t THEN PlaceEff(x, t[x], "cli")
+               ELSE IF x = "s" THEN <<"s1", None>> ELSE IF x = "i" THEN <<"in1", None>>
+               ELSE IF x = "o" THEN <<None, "out1">> ELSE <<None, None>>] :
+             t \in FeatSets, e \in FeatExtra, u \in (IF Tier = "quick" THEN {"cli"} ELSE {"cli", "cfg"}) }
+
 FamilySet == CASE Family = "place" -> PlaceSet
                [] Family = "pairs" -> PairSet
                [] Family = "table" -> TableSet
-               [] Family = "all"   -> PlaceSet \cup PairSet \cup TableSet
+               [] Family = "spell" -> SpellSet
+               [] Family = "feat"  -> FeatSet
+               [] Family = "all"   -> PlaceSet \cup PairSet \cup TableSet \cup SpellSet \cup FeatSet
                [] Family = "walk"  -> Bases
 
 Init == /\ \E pl \in FamilySet : vec = Mk(pl)
@@ -96,14 +133,19 @@ Init == /\ \E pl \in FamilySet : vec = Mk(pl)
 \* (RandomElement: exactly one successor per step, so that a simulation run
 \* emits its own states only and not every neighbour of them; bound through a
 \* singleton set because TLC re-evaluates a LET definition at every use)
-Moves == {<<o, st>> : o \in Opts, st \in UNION {States(x) : x \in Opts}}
+Moves == UNION {{<<o, q[1], q[2]>> :
+                   q \in {z \in States(o) \X (Spells(o) \cup {"any", None}) :
+                            IF z[1][1] = None THEN z[2] = None
+                            ELSE z[2] # None /\ ~(z[2] = "glued" /\ z[1][1] = "EMPTY")}}
+                : o \in Opts}
 Next == /\ Family = "walk" /\ steps < Depth
-        /\ \E m \in {RandomElement({mv \in Moves : mv[2] \in States(mv[1])})} :
-              vec' = [cli |-> [vec.cli EXCEPT ![m[1]] = m[2][1]], cfg |-> [vec.cfg EXCEPT ![m[1]] = m[2][2]]]
+        /\ \E m \in {RandomElement(Moves)} :
+              vec' = [cli |-> [vec.cli EXCEPT ![m[1]] = m[2][1]], cfg |-> [vec.cfg EXCEPT ![m[1]] = m[2][2]],
+                      sp  |-> [vec.sp EXCEPT ![m[1]] = m[3]]]
         /\ steps' = steps + 1
 Spec == Init /\ [][Next]_gvars
 
-Rec(v) == [ cli |-> v.cli, cfg |-> v.cfg,
+Rec(v) == [ cli |-> v.cli, cfg |-> v.cfg, sp |-> v.sp,
             decision |-> Decision(v), reasons |-> Reasons(v),
             may |-> (MayReject(v) /\ ~MustReject(v)),
             comparable |-> Comparable(v),
